@@ -8,6 +8,7 @@ from pyvc.values import Space, V, real
 VD = "elexmodel.handlers.data.VersionedData.VersionedDataHandler"
 FN = f"{VD}.compute_versioned_margin_estimate.<locals>.compute_estimated_margin"
 LEVEL = "proof"
+BOUNDED = [{"name": "histories_float_and_int", "script": "c17_histories.py", "timeout": 1800}]
 ASSUMPTIONS = [
     "A-REAL: the vote columns are real-valued (float64); with INTEGER columns np.divide(..., out=zeros_like(int), casting='unsafe') truncates -- not visible to the proof, see the bounded dtype companion",
     "V2: |results_normalized_margin| <= 1, counts non-negative; histories have at least one version",
